@@ -275,6 +275,110 @@ def disk_histories(ctx, scratch):
                     k, libs, (o[0] + " " + repr(o[1]))[:300], want[:12]), {"requests": seq, "request": libs})
 
 
+STAGED_RUNNER = r'''
+import sys, json, os
+sys.path.insert(0, SCRATCH)
+sys.path.insert(0, LIBDIR)
+from mpilot.program import Program
+from mpilot.exceptions import MPilotError
+progs, lists, out = {}, {}, []
+def table(p, names):
+    # what the program offers now: through its table and through look-ups (a name that is not there is asked first)
+    p.find_command_class("NoSuchCommandAnywhere")
+    t = sorted("%s=%s" % (n, c.__module__) for n, c in p.command_library.items())
+    l = sorted("%s=%s" % (n, p.find_command_class(n).__module__) for n in names if p.find_command_class(n) is not None)
+    return [t, l]
+for step in json.loads(STEPS):
+    op = step[0]
+    try:
+        if op == "new":          # ["new", key, libs, how]  how: tuple | list (the caller keeps the list under the same key)
+            libs = list(step[2])
+            if step[3] == "list":
+                lists[step[1]] = libs
+            progs[step[1]] = Program(libraries=(libs if step[3] == "list" else tuple(libs)))
+            out.append(["ok", table(progs[step[1]], NAMES)])
+        elif op == "edit":       # ["edit", key, libs]: the caller reuses its list for something else
+            lists[step[1]][:] = step[2]
+            out.append(["ok", None])
+        elif op == "ask":        # ["ask", key]: the program built earlier, asked again
+            out.append(["ok", table(progs[step[1]], NAMES)])
+        elif op == "touch":      # ["touch", relpath] / ["remove", relpath]: the world changes
+            open(os.path.join(LIBDIR, step[1]), "w").close(); out.append(["ok", None])
+        elif op == "remove":
+            os.remove(os.path.join(LIBDIR, step[1])); out.append(["ok", None])
+    except MPilotError as e:
+        out.append(["mp", type(e).__name__])
+    except Exception as e:
+        out.append(["raw", type(e).__name__ + ": " + str(e)[:120]])
+print(json.dumps(out))
+'''
+
+
+def staged_histories(ctx, scratch):
+    """histories in which something other than requests happens between the requests (each in a fresh interpreter):
+    * a package one of whose sub-modules cannot be imported at first (it raises while a marker file exists) and can later: once the cause is gone a request
+      for that library is offered ALL its commands - also the ones of the module that failed and of the modules after it -, whatever failed before;
+    * the caller passes its libraries as a list and reuses that list afterwards for another program: the first program keeps offering what was requested
+      for IT, through its table and through look-ups (a missing name asked first), before and after the other program is built"""
+    libdir = common.tmpdir("mpv_c19s_")
+    cmd = "from mpilot.commands import Command\n\n\nclass %s(Command):\n    def execute(self, **kwargs):\n        return None\n"
+    files = {"sl.py": cmd % "Alpha", "sm.py": cmd % "Gamma", "sfaulty/__init__.py": "", "sfaulty/a.py": cmd % "Sigma",
+             "sfaulty/b.py": "import os\nif os.path.exists(os.path.join(os.path.dirname(os.path.dirname(os.path.abspath(__file__))), 'broken.flag')):\n    raise RuntimeError('service not reachable')\n" + cmd % "Upsilon",
+             "sfaulty/c.py": cmd % "Tau", "sfaulty/deep/__init__.py": "", "sfaulty/deep/d.py": cmd % "Phi"}
+    for rel, text in files.items():
+        path = os.path.join(libdir, rel)
+        os.makedirs(os.path.dirname(path), exist_ok=True)
+        with open(path, "w") as f:
+            f.write(text)
+    names = ["Alpha", "Gamma", "Sigma", "Upsilon", "Tau", "Phi"]
+    offers = {"sl": ["Alpha=sl"], "sm": ["Gamma=sm"], "sfaulty": ["Phi=sfaulty.deep.d", "Sigma=sfaulty.a", "Tau=sfaulty.c", "Upsilon=sfaulty.b"], "sfaulty.deep": ["Phi=sfaulty.deep.d"]}
+
+    def want(libs):
+        return sorted(x for l in libs for x in offers[l])
+
+    scenarios = []
+    for first in (["sfaulty"], ["sl", "sfaulty"], ["sfaulty.deep", "sl"]):
+        for between in ([], [["new", "q", ["sl"], "tuple"]], [["new", "q", ["sfaulty"], "tuple"], ["new", "q2", ["sm"], "tuple"]]):
+            scenarios.append([["touch", "broken.flag"], ["new", "p", first, "tuple"]] + between + [["remove", "broken.flag"], ["new", "r", first, "tuple"], ["new", "r2", ["sfaulty"], "tuple"],
+                              ["new", "r3", ["sm", "sfaulty"], "list"]])
+    for a, b in ((["sl"], ["sm"]), (["sl"], ["sl", "sm"]), (["sfaulty", "sl"], ["sm"]), (["sm"], [])):
+        scenarios.append([["new", "p", a, "list"], ["edit", "p", b], ["ask", "p"], ["new", "q", b, "tuple"], ["ask", "p"], ["new", "p2", b, "list"], ["ask", "p"], ["ask", "p2"]])
+    for sc in scenarios:
+        code = STAGED_RUNNER.replace("SCRATCH", repr(scratch)).replace("LIBDIR", repr(libdir)).replace("STEPS", repr(json.dumps(sc))).replace("NAMES", repr(names))
+        p = subprocess.run([sys.executable, "-c", code], stdout=subprocess.PIPE, stderr=subprocess.PIPE, universal_newlines=True, timeout=300, env=hash_env())
+        ctx.case("staged " + json.dumps(sc), sample={"steps": sc})
+        ctx.count("staged_histories")
+        if os.path.exists(os.path.join(libdir, "broken.flag")):
+            os.remove(os.path.join(libdir, "broken.flag"))
+        if p.returncode != 0:
+            ctx.fail("a history of Program constructions crashed the interpreter: %s" % p.stderr[-400:], {"steps": sc})
+            continue
+        outs = json.loads(p.stdout.strip().split("\n")[-1])
+        requested, broken = {}, False
+        for k, (step, o) in enumerate(zip(sc, outs)):
+            if step[0] == "touch":
+                broken = True
+            elif step[0] == "remove":
+                broken = False
+            elif step[0] == "new":
+                requested[step[1]] = list(step[2])
+            if step[0] not in ("new", "ask"):
+                continue
+            libs = requested[step[1]]
+            if step[0] == "new" and broken and any(l == "sfaulty" for l in libs):
+                ctx.count("staged_requests_while_a_module_cannot_be_imported")
+                if o[0] == "ok" and o[1][0] != want(libs):
+                    ctx.fail("step %d: a library one of whose modules cannot be imported was accepted with part of its commands: %r" % (k, o[1][0]), {"steps": sc})
+                requested.pop(step[1], None) if o[0] != "ok" else None
+                continue
+            if step[1] not in requested:
+                continue
+            if o[0] != "ok":
+                ctx.fail("step %d %r: %s - the libraries %r can all be imported at this point" % (k, step, o, libs), {"steps": sc})
+            elif o[1][0] != want(libs) or o[1][1] != want(libs):
+                ctx.fail("step %d %r: the program built for the libraries %r offers %r (by look-up: %r); those libraries define %r" % (k, step, libs, o[1][0], o[1][1], want(libs)), {"steps": sc})
+
+
 def run(ctx):
     ctx.check_proofs(["MPilot.Props.C19"])
     model = common.Model()
@@ -341,6 +445,7 @@ def run(ctx):
                 if not any(mod == l or mod.startswith(l + ".") for l in last[1]):
                     ctx.fail("command %s comes from module %s, which is not one of the requested libraries %r nor beneath one" % (item, mod, last[1]), {"history": hist})
     disk_histories(ctx, scratch)
+    staged_histories(ctx, scratch)
     return ctx.finish(
         rule="histories of 3-9 events in a fresh interpreter each: class definitions (5 command names incl. names of built-ins) in 7 synthetic modules whose names are "
              "prefixes/extensions/sub-modules of one another, interleaved with Program constructions for 1-3 libraries drawn from user and built-in libraries "
